@@ -133,8 +133,8 @@ fn prefix_case(i: u64) -> Option<QCase> {
     // the same name without the prefix
     let bare_text = &wi.word.text[wi.word.text.len() - u.names.iter().filter(|nm| wi.word.text.ends_with(nm.as_str())).map(|nm| nm.len()).max()?..];
     let bare = w.all.iter().find(|x| x.safe && x.word.text == *bare_text && x.word.prefix == 0 && x.word.unit == wi.word.unit)?;
-    let from = USpell { factors: vec![(wi.word.clone(), n)], slash: false, star: true };
-    let to = USpell { factors: vec![(bare.word.clone(), n)], slash: false, star: true };
+    let from = USpell { factors: vec![(wi.word.clone(), n)], slash: false, star: true, noise: 0, starstar: false };
+    let to = USpell { factors: vec![(bare.word.clone(), n)], slash: false, star: true, noise: 0, starstar: false };
     let e = Expr::Cast(Box::new(Expr::Qty(Lit::int(1), from)), to.clone());
     let want = crate::tool::pow10((wi.word.prefix as i64) * n as i64);
     let si = &want * to.scale(&observed().table)?;
